@@ -195,8 +195,42 @@ PROPS = {
     "C14": dict(
         modules=["c14_encoder"],
         level="proof",
-        assumptions=[],
-        manifest=dict(category="proof", technique="contract-based deductive verification (under construction)", text="under construction", note="under construction"),
+        assumptions=[
+            "PROVED (all coefficient lists of any length and content, all budgets, alignments and minimum indices; unbounded): calculate_coeffs_bits returns cbits "
+            "(bits up to the last non-zero coefficient, trailing zeros free - the bounded-block semantics of C20); quantize_coeffs returns exactly forward_quant(c, "
+            "max(0, q - matrix value)) per coefficient (spec function fq, tied to the real forward_quant by a quantified definition inside that verification only); "
+            "quantize_to_fit returns the SMALLEST index >= minimum_qindex whose blocks, each rounded up to align_bits, total <= target_size (loop invariant over "
+            "itertools.count: every smaller index exceeds the target) together with exactly the coefficients quantised at that index, for 2 (LD: Y, C) and 3 (HQ: Y, C1, C2) "
+            "coefficient sets (arg_cases; callers are checked to pass 2 or 3)",
+            "PROVED: make_hq_slice - each block fits the space its length field announces, fixed-size slices have fields summing to the slice size, every field in 0..255; "
+            "make_ld_slice - slice_y_length is exactly the luma block's bits; get_safe_lossy_hq_slice_size_scaler - the smallest scaler >= 1 with 255*scaler >= "
+            "ceil(picture_bytes/slices) - 4; calculate_hq_length_field; interleave",
+            "PROVED for an arbitrary iteration of the slice loops of make_transform_data_hq_lossy / make_transform_data_ld_lossy (ghost assertions at the point where the "
+            "slice is built, and the preconditions of quantize_to_fit / make_hq_slice at their call sites): the budget handed to quantize_to_fit is the slice's true "
+            "budget written from the standard (HQ: its even share hq_units of picture_bytes - 4*slices in scaler-byte units; LD: 8*slice_bytes - 7 - length-field width); "
+            "HQ payload units are within 0..255 for every slice once the scaler is at least the safe one (lemma hq_slice_units_fit_8_bits); the three HQ blocks fit the "
+            "slice; LD: 7 + length field + luma block + colour block <= 8*slice_bytes and slice_y_length < 2**(field width) (uses lemma cbits_zero_or_at_least_4 for "
+            "1-byte slices); InsufficientHQPictureBytesError is raised iff picture_bytes < 4*slices",
+            "PROVED (lemma hq_total_size, via C13's telescoping sum S4_partial_sums): 4*slices + scaler*sum(hq_units) lies in (picture_bytes - scaler, picture_bytes]",
+            "BOUNDED (never counted as proved): that the returned slice list consists of exactly the slices built in the loop, in raster order (hq_lossy_picture_ok / "
+            "ld_lossy_picture_ok evaluate every clause of the statement on the returned TransformData), and the whole of make_transform_data_hq_lossless (nested "
+            "allocating comprehension and max() over a generator: outside the verified subset)",
+            "NOT covered: transform_and_slice_picture and everything above it (picture -> coefficient arrays), the serialiser that turns the slices into bits "
+            "(C20/C21), termination of the itertools.count loop (it ends because quantised coefficients eventually become zero; not proved)",
+            "types: coefficient values and quantisation-matrix values are lists of integers; a slice's SliceCoeffs is a 3-tuple of ComponentCoeffs (declared type list#3)",
+        ],
+        manifest=dict(
+            category="proof",
+            technique="contract-based deductive verification of encoder/pictures.py: recursive spec functions for bounded-block code lengths, an opaque spec function for "
+                      "per-coefficient quantisation, lambda-array contracts for comprehensions, a minimality invariant over an unbounded counting loop, nonlinear "
+                      "ground lemmas for the 8-bit bounds; pyvc + z3; whole-list postconditions as a native bounded stand-in",
+            text="For ALL coefficient contents, slice counts, picture_bytes values and overrides (unbounded): quantize_to_fit picks the smallest quantisation index not below the "
+                 "minimum whose coefficients fit the budget and returns exactly the coefficients quantised with it; every HQ length field is within 0..255 and the blocks fit "
+                 "the fields; LD slices need no more than their computed size and their slice_y_length fits its field; the budget of every slice is its true share of "
+                 "picture_bytes; the HQ total equals picture_bytes to within slice_size_scaler.  11 functions and 4 lemmas, every obligation discharged on each run.",
+            note="The link 'returned list == slices built in the loop' and make_transform_data_hq_lossless are bounded stand-ins (native contract checks on generated "
+                 "coefficient arrays).  Trusted: pyvc, z3, ground arithmetic lemmas (grid-checked natively each run), list/namedtuple library models.",
+        ),
     ),
 }
 
